@@ -15,13 +15,12 @@ gets the `caller` of the scope it is written in), `Codegen/Attrs.lean` (`Tag._pa
 `${expr | filters}` with def calls by name, `capture(f, …)`, `caller.x(…)`, concatenations and calls as arguments of
 calls; `% if / for / while / try`, `loop`, `<%text filter>`, `return / break / continue`; **`<%def>`s – top-level,
 nested in other defs, and written inside a `<%call>` (reached as `caller.name(…)` or by name from the call's content):
-directly or below a control line of the content (the defs of a *nested* `<%call>` belong to that call's own `ccall`:
-since /repo 4a9e6c6 the enclosing call does not export them any more – F-C05-5, found by this check) – with any
-combination of `buffered` / `filter=` / `decorator=`;
+directly or below a control line of the content (the defs of a *nested* `<%call>` belong to that call's own `ccall`
+only) – with any combination of `buffered` / `filter=` / `decorator=`;
 `<%call>` with a body and body arguments, in loops, in defs, in other call bodies; `caller.body(…)` evaluated any number
 of times; `<%block>`s rendered in place – named blocks of the template body (module-level callables) and anonymous or
-named blocks in defs and loops (closures) – with `buffered` / `filter=` like defs (since /repo 248d875 the block's
-place writes what the callable returns: a buffered block shows its content, after `buffer_filters`), entered
+named blocks in defs and loops (closures) – with `buffered` / `filter=` like defs (the block's place writes what the
+callable returns: a buffered block shows its content, after `buffer_filters`), entered
 without content (`caller` is empty inside), sharing the loop stack of the scope they are written in; `<%include>` of
 another template of the set (its body as a callable of its own module; its named blocks and defs are that module's).**
 In the structured template block names are ≥ `blockBase` (a block is not callable by a name of the template).
@@ -36,15 +35,19 @@ NOT covered (named by the guard):
   hoists its closures into `body()`), or reading the `loop` of a `% for` around it (the guard decides "a loop is
   active" per callable; a block's closure is written before the loop is entered), and `cached=` blocks.
 * two callables of the same name in one scope (Python keeps the last definition, the model the first).
-For those the frame-level theorems of C13 hold and the behaviour is compared on every run.  Also outside are the places
-where mako's generated code deviates from the specification, which are recorded findings (see the `…_counterexample`
-theorems): `<% return %>` inside a buffering def (F-C05-2), and `caller.x()` inside the argument list of a
-`<%call expr>` (what remains of F-C05-1: a def called by name while the caller is pending takes it for its own).  The
-flag `cv` of the guard only marks defs written inside a `<%call>` that do not mention `caller` (their `caller` variable
-is the enclosing `ccall` parameter); since /repo 0522f73 it excludes nothing a template can contain.  Repaired in /repo
-and now inside the guard: a `<%call>` run during the argument evaluation of another call (555117c), `caller` in defs
-written inside a `<%call>` (0522f73), the defs of nested `<%call>`s and of control lines in a `<%call>` (4a9e6c6: every
-def of the content, whatever it contains, is written once into the `ccall` of its own tag), buffered blocks (248d875).
+For those the frame-level theorems of C13 hold and the behaviour is compared on every run.  The flag `cv` of the guard
+only marks defs written inside a `<%call>` that do not mention `caller` (their `caller` variable is the enclosing
+`ccall` parameter); it excludes nothing a template can contain.
+
+OPEN – statements that are false of mako's code, each kept with a `…_counterexample` theorem and a recorded finding:
+* F-C05-2: `<% return %>` inside a buffering def loses the def's content (guard flag `buf`;
+  `def_call_refines_spec_counterexample_return`);
+* F-C05-1b: `caller.x()` / a def call inside the argument list of a `<%call expr>` – a def called by name while the
+  caller is pending takes it for its own (guard flag `inCE`; `def_call_refines_spec_counterexample_pending_leak`);
+* F-C05-attr-braces: the split regex of `Tag._parse_attributes` mishandles `{` … `}` and quoted `}` inside `${…}`
+  (guard `wf` of `attr_concat_order`; `attr_concat_order_counterexample`);
+* F-C05-sig-barestar: `get_argument_expressions` drops a bare `*` (guard of `signature_reemitted_partial`;
+  `signature_reemitted_counterexample`).
 
 All theorems quantify over every template set, every crash point `k`, every fuel and every start state related
 to the specification's arguments (`RelC` / `RelW`; true of the initial state, preserved by every execution).
